@@ -55,6 +55,8 @@ class World(WsWorld):
 
     def __init__(self, run, mode="server"):
         WsWorld.__init__(self, run)
+        self.P = PROP
+        self.force = {}
         self.mode = mode
         self.verdict = None  # 'valid' / 'invalid' / 'unknown'
         self.mutation = None
@@ -342,6 +344,7 @@ class World(WsWorld):
             "spec": ch.pick((18, 13, 10), "spec", (4, 1, 1)),
             "async_onconnect": ch.flag("async-onConnect", 0.15),
         }
+        cfg.update(self.force)
         url, host, port, resource = URLS[cfg["url"]]
         self.expect_url = (host, port, resource)
         fac = aw.WebSocketClientFactory(url, origin=cfg["origin"], protocols=cfg["protocols"],
@@ -368,7 +371,7 @@ class World(WsWorld):
         line, hdrs = parse_http(req)
         keys = hget(hdrs, b"sec-websocket-key")
         if len(keys) != 1:
-            self.run.violate("C07.client-request", "key-headers:%d" % len(keys), "")
+            self.run.violate(self.P + ".client-request", "key-headers:%d" % len(keys), "")
             key = keys[0] if keys else b"x"
         else:
             key = keys[0]
@@ -386,7 +389,8 @@ class World(WsWorld):
                                                                "permessage-deflate; client_max_window_bits=12"), "extok")))
             if cfg["deflate"] == "offer-deny":
                 valid = False
-        mut = ch.pick(MUTATIONS_RESP, "mutation", [6] + [1] * (len(MUTATIONS_RESP) - 1))
+        muts = getattr(self, "resp_mutations", MUTATIONS_RESP)
+        mut = ch.pick(muts, "mutation", [6] + [1] * (len(muts) - 1))
         self.mutation = mut
         encoding = "latin1"
         tail = b""
@@ -488,26 +492,26 @@ class World(WsWorld):
         host, port, resource = self.expect_url
         parts = line.split(b" ")
         if len(parts) != 3 or parts[0] != b"GET" or parts[2] != b"HTTP/1.1":
-            run.violate("C07.client-request", "request-line", repr(line))
+            run.violate(self.P + ".client-request", "request-line", repr(line))
         elif parts[1].decode("latin1") != resource:
-            run.violate("C07.client-request", "resource", "%r != %r" % (parts[1], resource))
+            run.violate(self.P + ".client-request", "resource", "%r != %r" % (parts[1], resource))
         hosts = hget(hdrs, b"host")
         want = ("%s:%d" % (host, port)).encode()
         if hosts != [want] and not (port == 80 and hosts == [host.encode()]):
-            run.violate("C07.client-request", "host-header", "%r, wanted %r" % (hosts, want))
+            run.violate(self.P + ".client-request", "host-header", "%r, wanted %r" % (hosts, want))
         try:
             raw = base64.b64decode(key, validate=True)
         except Exception:
             raw = b""
         if len(raw) != 16:
-            run.violate("C07.client-request", "key-not-16-octets", repr(key))
+            run.violate(self.P + ".client-request", "key-not-16-octets", repr(key))
         if not any(b"websocket" == v.lower() for v in hget(hdrs, b"upgrade")):
-            run.violate("C07.client-request", "upgrade-header", "")
+            run.violate(self.P + ".client-request", "upgrade-header", "")
         if not any(b"upgrade" in [x.strip().lower() for x in v.split(b",")] for v in hget(hdrs, b"connection")):
-            run.violate("C07.client-request", "connection-header", "")
+            run.violate(self.P + ".client-request", "connection-header", "")
         want_v = {10: b"8", 13: b"13", 18: b"13"}[self.cfg["spec"]]
         if hget(hdrs, b"sec-websocket-version") != [want_v]:
-            run.violate("C07.client-request", "version-header", repr(hget(hdrs, b"sec-websocket-version")))
+            run.violate(self.P + ".client-request", "version-header", repr(hget(hdrs, b"sec-websocket-version")))
         self.client_key = key
 
     # --- actions -----------------------------------------------------------------------------------------------------
@@ -548,7 +552,7 @@ class World(WsWorld):
 
     # --- oracles -------------------------------------------------------------------------------------------------------
     def on_escape(self, ep, where, exc):
-        self.run.violate("C07.no-escape", "%s:%s:%s" % (where, type(exc).__name__, exc_site(exc)),
+        self.run.violate(self.P + ".no-escape", "%s:%s:%s" % (where, type(exc).__name__, exc_site(exc)),
                          "%s mutation=%s: %r" % (self.mode, self.mutation, exc))
 
     def check_step(self):
@@ -566,12 +570,12 @@ class World(WsWorld):
         if self.mode == "server":
             if self.verdict == "valid":
                 if not opened:
-                    run.violate("C07.accept-iff-valid", "valid-request-rejected:" + self.mutation, out[:120].decode("latin1"))
+                    run.violate(self.P + ".accept-iff-valid", "valid-request-rejected:" + self.mutation, out[:120].decode("latin1"))
                 else:
                     self.check_101(out)
             else:
                 if opened or state_open:
-                    run.violate("C07.accept-iff-valid", "invalid-request-accepted:" + self.mutation, self.request[:200].decode("latin1"))
+                    run.violate(self.P + ".accept-iff-valid", "invalid-request-accepted:" + self.mutation, self.request[:200].decode("latin1"))
                 else:
                     self.check_reject_clean(out)
         else:
@@ -579,37 +583,37 @@ class World(WsWorld):
                 return
             if self.verdict == "valid":
                 if not opened:
-                    run.violate("C07.accept-iff-valid", "valid-response-rejected:" + self.mutation, repr(e.closed_cb))
+                    run.violate(self.P + ".accept-iff-valid", "valid-response-rejected:" + self.mutation, repr(e.closed_cb))
                 else:
                     sp = getattr(e.response, "protocol", None)
                     if sp != self.resp_proto:
-                        run.violate("C07.accept-digest", "client-subprotocol-mismatch", "%r != %r" % (sp, self.resp_proto))
+                        run.violate(self.P + ".accept-digest", "client-subprotocol-mismatch", "%r != %r" % (sp, self.resp_proto))
             else:
                 if opened or state_open:
-                    run.violate("C07.accept-iff-valid", "invalid-response-accepted:" + self.mutation, "")
+                    run.violate(self.P + ".accept-iff-valid", "invalid-response-accepted:" + self.mutation, "")
                 elif e.closed_cb is None and self.mutation not in ("truncated", "garbage"):
-                    run.violate("C07.reject-is-clean", "client-not-dropped:" + self.mutation, "")
+                    run.violate(self.P + ".reject-is-clean", "client-not-dropped:" + self.mutation, "")
 
     def check_101(self, out):
         run = self.run
         line, hdrs = parse_http(out)
         if not line.startswith(b"HTTP/1.1 101"):
-            run.violate("C07.accept-digest", "open-without-101", repr(line))
+            run.violate(self.P + ".accept-digest", "open-without-101", repr(line))
             return
         acc = hget(hdrs, b"sec-websocket-accept")
         if acc != [accept_for(self.key)]:
-            run.violate("C07.accept-digest", "wrong-accept-digest", "%r" % acc)
+            run.violate(self.P + ".accept-digest", "wrong-accept-digest", "%r" % acc)
         sp = hget(hdrs, b"sec-websocket-protocol")
         if sp and (len(sp) != 1 or sp[0].decode() not in self.req_protocols):
-            run.violate("C07.accept-digest", "subprotocol-not-offered", repr(sp))
+            run.violate(self.P + ".accept-digest", "subprotocol-not-offered", repr(sp))
         ext = hget(hdrs, b"sec-websocket-extensions")
         if ext and not self.req_ext_offered:
-            run.violate("C07.accept-digest", "extension-not-offered", repr(ext))
+            run.violate(self.P + ".accept-digest", "extension-not-offered", repr(ext))
         for x in ext:
             for item in x.split(b","):
                 name = item.split(b";")[0].strip()
                 if name != b"permessage-deflate":
-                    run.violate("C07.accept-digest", "extension-not-offered", repr(x))
+                    run.violate(self.P + ".accept-digest", "extension-not-offered", repr(x))
         run.probe("server-accepted")
 
     def check_reject_clean(self, out):
@@ -624,9 +628,9 @@ class World(WsWorld):
             ok = len(parts) >= 2 and parts[0] == b"HTTP/1.1" and parts[1].isdigit() and (
                 400 <= int(parts[1]) < 600 or (mut in ("no-upgrade-status-page", "missing:upgrade") and int(parts[1]) in (200, 303)))
             if not ok:
-                run.violate("C07.reject-is-clean", "bad-error-response:" + mut, repr(line))
+                run.violate(self.P + ".reject-is-clean", "bad-error-response:" + mut, repr(line))
         if e.p._st != 0 and not e.t.is_gone():
-            run.violate("C07.reject-is-clean", "not-dropped:" + mut, "")
+            run.violate(self.P + ".reject-is-clean", "not-dropped:" + mut, "")
         run.probe("server-rejected")
 
     def final_pair(self):
@@ -645,13 +649,13 @@ class World(WsWorld):
             origin_ok = any(fnmatch.fnmatchcase(full, p) for p in cfg["allowed"])
         if self.compatible and origin_ok:
             if not (c_open and s_open):
-                run.violate("C07.own-peers-interoperate", "handshake-failed:c=%s,s=%s" % (c_open, s_open),
+                run.violate(self.P + ".own-peers-interoperate", "handshake-failed:c=%s,s=%s" % (c_open, s_open),
                             "client closed %r server closed %r" % (c.closed_cb, s.closed_cb))
                 return
             for ep in (c, s):
                 kinds = [ev[0] for ev in ep.events]
                 if kinds.count("onConnect") != 1 or kinds.count("onOpen") != 1 or kinds.index("onConnect") > kinds.index("onOpen"):
-                    run.violate("C07.own-peers-interoperate", "callbacks:" + ",".join(kinds[:4]), ep.name)
+                    run.violate(self.P + ".own-peers-interoperate", "callbacks:" + ",".join(kinds[:4]), ep.name)
             # what the client asked for on the wire
             line, hdrs = parse_http(bytes(c.http_out))
             self.check_client_request_pair(line, hdrs)
@@ -661,32 +665,32 @@ class World(WsWorld):
             sp_w = hget(rhdrs, b"sec-websocket-protocol")
             sp_w = sp_w[0].decode() if sp_w else None
             if sp_c != sp_w:
-                run.violate("C07.accept-digest", "client-subprotocol-mismatch", "%r != %r" % (sp_c, sp_w))
+                run.violate(self.P + ".accept-digest", "client-subprotocol-mismatch", "%r != %r" % (sp_c, sp_w))
             if sp_w is not None and sp_w not in (cfg["cprotos"] or []):
-                run.violate("C07.accept-digest", "subprotocol-not-offered", repr(sp_w))
+                run.violate(self.P + ".accept-digest", "subprotocol-not-offered", repr(sp_w))
             keys = hget(hdrs, b"sec-websocket-key")
             if keys and hget(rhdrs, b"sec-websocket-accept") != [accept_for(keys[0])]:
-                run.violate("C07.accept-digest", "wrong-accept-digest", "")
+                run.violate(self.P + ".accept-digest", "wrong-accept-digest", "")
             comp_c = c.p._perMessageCompress is not None
             comp_s = s.p._perMessageCompress is not None
             if comp_c != comp_s:
-                run.violate("C07.own-peers-interoperate", "compression-disagreement", "c=%s s=%s" % (comp_c, comp_s))
+                run.violate(self.P + ".own-peers-interoperate", "compression-disagreement", "c=%s s=%s" % (comp_c, comp_s))
             if cfg["deflate"] in ("none", "offer-only") and (comp_c or comp_s):
-                run.violate("C07.accept-digest", "extension-not-offered-or-not-accepted", cfg["deflate"])
+                run.violate(self.P + ".accept-digest", "extension-not-offered-or-not-accepted", cfg["deflate"])
             run.probe("pair-open")
         else:
             if c_open or s_open:
-                run.violate("C07.accept-iff-valid", "incompatible-peers-opened", "compatible=%s origin_ok=%s" % (self.compatible, origin_ok))
+                run.violate(self.P + ".accept-iff-valid", "incompatible-peers-opened", "compatible=%s origin_ok=%s" % (self.compatible, origin_ok))
             run.probe("pair-refused")
 
     def check_client_request_pair(self, line, hdrs):
         host, port, resource = self.expect_url
         parts = line.split(b" ")
         if len(parts) != 3 or parts[1].decode("latin1") != resource:
-            self.run.violate("C07.client-request", "resource", repr(line))
+            self.run.violate(self.P + ".client-request", "resource", repr(line))
         want = ("%s:%d" % (host, port)).encode()
         if hget(hdrs, b"host") != [want]:
-            self.run.violate("C07.client-request", "host-header", repr(hget(hdrs, b"host")))
+            self.run.violate(self.P + ".client-request", "host-header", repr(hget(hdrs, b"host")))
 
     def nontrivial(self):
         return self.run.probes.get("split-delivery", 0) >= 1
